@@ -253,7 +253,7 @@ def judge(case, impl, model):
         pfail = f'the user __post_init__ ran {impl["journal"]} times ({path}) - {describe(case)}'
     finding = None
     if pfail and corr:
-        for reg in ('namedtuple', 'emptyFixedTuple', 'typeOfUnion'):
+        for reg in ('namedtuple', 'emptyFixedTuple'):
             if reg in model['regions']:
                 finding = 'inheritedCheckerRegion'
     nf = len(case['c']['fields'])
